@@ -20,7 +20,27 @@ import (
 )
 
 // Flag numbering shared with coq/Model/Responders.v.
-var FlagNames = []string{`\Recent`, `\Deleted`, `\Seen`, `\Flagged`, "kwa", "kwb"}
+var FlagNames = []string{`\Recent`, `\Deleted`, `\Seen`, `\Flagged`, "kwa", "kwb", "$Forwarded", "Forwarded"}
+
+// forwardClosure: STORE completes the forward flags: naming $Forwarded or Forwarded means both (internal/state/updates.go)
+func forwardClosure(ids []int) []int {
+	has := false
+	for _, f := range ids {
+		if f == 6 || f == 7 {
+			has = true
+		}
+	}
+	if !has {
+		return ids
+	}
+	out := []int{}
+	for _, f := range ids {
+		if f != 6 && f != 7 {
+			out = append(out, f)
+		}
+	}
+	return append(out, 6, 7)
+}
 
 func flagID(name string) int {
 	l := strings.ToLower(name)
@@ -101,7 +121,7 @@ func (o Op) Coq() string {
 		case "append":
 			c = fmt.Sprintf("CAppend %d %s", o.Mb, common.CoqNList(o.Flags))
 		case "store":
-			c = fmt.Sprintf("CStore %s %s %s %s", natList(o.Ps), fop, common.CoqNList(o.Flags), common.CoqBool(o.Silent))
+			c = fmt.Sprintf("CStore %s %s %s %s", natList(o.Ps), fop, common.CoqNList(forwardClosure(o.Flags)), common.CoqBool(o.Silent))
 		case "expunge":
 			c = "CExpunge"
 		case "copy":
